@@ -460,6 +460,11 @@ func checkC04(c *Ctx) {
 	c.rulePoppedBucketDrained("C04-R11")
 	c.ruleItemKeepsExactDeadline("C04-R12")
 	c.ruleSweepGateCoherent("C04-R13")
+	// the binary searches of the timeout list: monotone predicates over the very slice searched, tail-relative
+	// results re-based before use (round-8 change: the end of the run of equal deadlines returned relative to its start)
+	c.checkSortSearchSites("C04-R14", func(f *ssa.Function) bool {
+		return f.Package() != nil && f.Package().Pkg.Path() == c.P.Rel("wasp/expiration")
+	}, 1)
 
 	// R8: slices that are binary-searched stay sorted
 	ru8 := c.R.Rule("C04-R8", "a slice field that is binary-searched with sort.Search is only modified in order-preserving ways: append followed by a sort, or deletion by append(s[:i], s[i+1:]...); a whole element is never overwritten in place (swap-with-last removal breaks the order the search relies on)", "E11 shape rule on writes to sort.Search'ed members", 1)
